@@ -46,6 +46,8 @@ def h_access(ctx, L, width, prefix, n_excl, second, skip_nc):
         lines += fasta_lines("chr5_KI270791v1_alt", "ANA", width)
     elif second == "plain":
         lines += fasta_lines("chr2", "AnNa", width)
+    elif second == "odd":
+        lines += fasta_lines("scaffold_12", "AA", width)
     excl = []
     for k in range(n_excl):
         a = ctx.int(f"xa{k}", 0, L + 2)
@@ -104,6 +106,9 @@ def h_access(ctx, L, width, prefix, n_excl, second, skip_nc):
             ctx.claim(others == [("chr2", 0, 4)], "second sequence: gap of 1 bridged when min_gap > 1")
         else:
             ctx.claim(others == [("chr2", 0, 2), ("chr2", 3, 4)], "second sequence: lower-case n is accessible, N is not")
+    elif second == "odd":
+        ctx.claim(others == [("scaffold_12", 0, 2)], "a sequence the package's contig-name rule does not call non-canonical is kept")
+        ctx.cover("noncanonical")
     elif second == "alt":
         if skip_nc:
             ctx.claim(others == [], "non-canonical sequences are dropped when asked")
@@ -124,7 +129,7 @@ def _cfgs():
     for L, tier in ((4, "quick"), (6, "quick"), (8, "thorough")):
         for width in range(1, L + 1):
             for prefix in ("AA", "AN", "NA", "NN"):
-                for n_excl, second, skip in ((0, None, True), (1, "plain", True), (1, "alt", False), (2, "empty", True), (0, "alt", True), (1, "allN", False)):
+                for n_excl, second, skip in ((0, None, True), (1, "plain", True), (1, "alt", False), (2, "empty", True), (0, "alt", True), (1, "allN", False), (0, "odd", True)):
                     c = {"L": L, "width": width, "prefix": prefix, "n_excl": n_excl, "second": second, "skip_nc": skip}
                     t = tier
                     if L == 6 and (n_excl == 2 or width in (4, 5) or second == "allN" or (second == "plain" and width == 3)):
